@@ -448,3 +448,8 @@ func VerifH_C05_WireIDsNeverReused() {
 	}
 	_ = cancelA
 }
+
+// VerifH_C04_PipelinedLateReply: the scenario of C05_LateReply under the no-mix-up property: a reply that arrives
+// together with (or after) its exchange's cancellation must never be handed to a LATER exchange on the transport —
+// that exchange would return another query's answer under its own ID.
+func VerifH_C04_PipelinedLateReply() { VerifH_C05_LateReply() }
